@@ -6,7 +6,7 @@ import TTV.Drv.C06
   `(describe <m> <v> <annotated> <verbose>)`        matcher / value grammar of `TTV.Drv.C06`
   `(textrepr <isBytes> <ml> (np…) (c…))`             ml = `none` | `(some T|F)`
   `(assert <api> ((base suffix)…) <mismatch> [<after> <tearDown> (<cleanup>…) [<place>]])`   mismatch = `none` | `(some (d…))`,
-                                                     acts = ret|skip|xfail|uxsuccess|failure|error|interrupt, place = body|setUp
+                                                     acts = ret|skip|xfail|uxsuccess|failure|error|interrupt, place = body|setUp|setUpEarly (in setUp before the upcall)
   `(ctor <class> <row> <variant> <matchee> <annotated> <verbose>)`   a stock matcher built from the harness's table of constructor-argument shapes
 Traces
   `(ctor <str> <describe> <details> <errStr>)`
@@ -48,7 +48,7 @@ def act? : Sexp → Option Act
   | _ => none
 
 def place? : Sexp → Option Place
-  | .atom "body" => some .body | .atom "setUp" => some .setUp
+  | .atom "body" => some .body | .atom "setUp" => some .setUp | .atom "setUpEarly" => some .setUpEarly
   | _ => none
 
 def input? : Sexp → Option Input
